@@ -37,6 +37,6 @@ def dump(fn, lo=0, hi=10**9):
         elif k=='drop': print('    drop(%s) -> bb%s'%(place_str(fn,t['place']),t['target']))
         else: print('    %s %s'%(k, t.get('target','')))
 if __name__=='__main__':
-    F=Facts(sorted(glob.glob('/verif/.cache/facts/*-default.json'),key=os.path.getmtime)[-1])
+    from cao import extract as _ex; F=Facts(_ex.get_facts(os.environ.get('REPO','/repo'),'default')[0])
     f=F.fn(sys.argv[1]); print(f.path, len(f.blocks))
     dump(f, int(sys.argv[2]) if len(sys.argv)>2 else 0, int(sys.argv[3]) if len(sys.argv)>3 else 10**9)
